@@ -583,12 +583,12 @@ impl C09 {
                 }
             }
         }
-        // flat filters on a small (64 KiB) thread stack, first thing in a fresh process: the lazily
+        // flat filters on a small (48 KiB) thread stack, first thing in a fresh process: the lazily
         // built unit and zone tables are built on that stack (the unchanged tree needs < 32 KiB)
         for f in ["x < 5kW", "x == 5", "ts > 2021-01-01T00:00:00-05:00 New_York", "a == `u` and b->c", "d >= 2021-01-01 and t < 12:00:00", "r == @r \"dis\" or ^sym"] {
             let mut c = Case::new("C09", "filter-small-stack", f.as_bytes());
-            c.extra.insert("stack_kb".into(), 64u64.into());
-            c.origin = format!("small stack 64 KiB: {f}");
+            c.extra.insert("stack_kb".into(), 48u64.into());
+            c.origin = format!("small stack 48 KiB: {f}");
             cases.push(c);
         }
         // long acyclic ref chains under the evaluator (one record per hop, served lazily)
